@@ -77,19 +77,19 @@ def _bounds_struct(fi):
     return ifb, ifo
 
 
-def _ok_assigns(stmts, path=()):
-    """all leaves: (path of (test, polarity), value node or None if ok not assigned)"""
-    out = []
-    assigned = None
+def _ok_assigns(stmts, path=(), init=None):
+    """all leaves: (path of (test, polarity), value node last assigned to ok on that path, or None if never assigned)"""
+    leaves = [(path, init)]
     for st in stmts:
         if isinstance(st, ast.Assign) and isinstance(st.targets[0], ast.Name) and st.targets[0].id == 'ok':
-            assigned = st.value
+            leaves = [(p, st.value) for p, _ in leaves]
         elif isinstance(st, ast.If):
-            a = _ok_assigns(st.body, path + ((st.test, True),))
-            b = _ok_assigns(st.orelse, path + ((st.test, False),)) if st.orelse else [(path + ((st.test, False),), None)]
-            return out + a + b
-    out.append((path, assigned))
-    return out
+            new = []
+            for p, v in leaves:
+                new += _ok_assigns(st.body, p + ((st.test, True),), v)
+                new += _ok_assigns(st.orelse, p + ((st.test, False),), v)
+            leaves = new
+    return leaves
 
 
 def _is_none_ret(stmts):
@@ -331,6 +331,72 @@ def rule_solverarg(run):
     run.trust('the installed NumPy version is read from the dist-info directory name under /venv/lib (nothing is imported)')
 
 
+def rule_startdom(run):
+    run.rule('STARTDOM', 'tsat() starts its root search for sat(t) = p at an estimate t0(p); over the whole pressure range of the saturation '
+             'line the estimate lies where sat() returns a number (sat() returns None outside its evaluation limits, and the '
+             'residual `sat(t) - p` then raises): decided by interval evaluation of t0 over the range', floor=1)
+    from ..ivarith import IV, IVEval, Hazard
+    from .. import roles
+    prog = run.prog
+    ts, sa = prog.func('t2thermo.tsat'), prog.func('t2thermo.sat')
+    key = 't2thermo.tsat :: starting estimate inside the evaluation limits of sat'
+    # the solver call and its start value
+    calls = [c for c in ast.walk(ts.node) if isinstance(c, ast.Call) and call_name(c) in ('fsolve', 'brentq', 'newton', 'root') and len(c.args) >= 2]
+    if len(calls) != 1:
+        run.unknown(key, 'solver call not found', where=ts.where()); return
+    start = calls[0].args[1]
+    pname = ts.params[0]
+    # pressure range: the chained comparison on the parameter in tsat's own range test
+    phi = None
+    for c in ast.walk(ts.node):
+        if isinstance(c, ast.Compare) and len(c.ops) == 2 and isinstance(c.comparators[0], ast.Name) and c.comparators[0].id == pname \
+           and all(isinstance(o, (ast.LtE, ast.Lt)) for o in c.ops):
+            v = Folder(prog, MOD).fold(c.comparators[1])
+            if isinstance(v, (int, float)) and not isinstance(v, bool): phi = float(v)
+    if phi is None:
+        run.unknown(key, 'upper pressure limit of tsat not found', where=ts.where()); return
+    # evaluation limits of sat: the chained comparison on its parameter used directly as an `if` test
+    tname = sa.params[0]
+    lim = None
+    for n in ast.walk(sa.node):
+        if isinstance(n, ast.If):
+            c = n.test
+            if isinstance(c, ast.Compare) and len(c.ops) == 2 and isinstance(c.comparators[0], ast.Name) and c.comparators[0].id == tname \
+               and all(isinstance(o, (ast.LtE, ast.Lt)) for o in c.ops):
+                lo, hi = Folder(prog, MOD).fold(c.left), Folder(prog, MOD).fold(c.comparators[1])
+                if all(isinstance(v, (int, float)) and not isinstance(v, bool) for v in (lo, hi)):
+                    lim = (float(lo), float(hi)) if lim is None else (max(lim[0], float(lo)), min(lim[1], float(hi)))
+    if lim is None:
+        run.unknown(key, 'evaluation limits of sat not found', where=sa.where()); return
+    # t0 over p in (0, phi]: inline the local definitions of the start value
+    try:
+        ev = IVEval(prog, MOD, {pname: IV(5e-324, phi)})
+        env_defs = dict((nm, v) for nm, v, st in roles.assignments(ts.node))
+        def expand(e, depth=0):
+            if isinstance(e, ast.Name) and e.id in env_defs and e.id != pname and depth < 5: return expand(env_defs[e.id], depth + 1)
+            return e
+        class _Inl(ast.NodeTransformer):
+            def visit_Name(self, n):
+                if n.id in env_defs and n.id != pname: return self.visit(copy.deepcopy(env_defs[n.id]))
+                return n
+        import copy
+        t0 = ev.ev(_Inl().visit(copy.deepcopy(expand(start))))
+    except Hazard as h:
+        run.unknown(key, 'start value: possible %s hazard in `%s`' % (h.kind, norm(h.node)), where=ts.where(calls[0])); return
+    except AnalysisError as e:
+        run.unknown(key, str(e), where=ts.where(calls[0])); return
+    if lim[0] <= t0.lo and t0.hi <= lim[1]:
+        run.ok(key, {'t0': repr(t0), 'sat_evaluates_on': lim, 'p_up_to': phi}, where=ts.where(calls[0]))
+    else:
+        # the enclosure of a monotone expression in one variable is attained at the end points: confirm with the point p = phi
+        top = IVEval(prog, MOD, {pname: IV(phi)}).ev(_Inl().visit(copy.deepcopy(expand(start))))
+        if top.lo > lim[1] or top.hi < lim[0]:
+            run.violated(key, 'at p = %g the starting estimate is %s degC, outside [%g, %g] where sat() evaluates: the first residual is '
+                         '`None - p` and tsat raises for the highest pressures of the saturation line' % (phi, top, lim[0], lim[1]),
+                         where=ts.where(calls[0]), robust=True)
+        else: run.unknown(key, 'start enclosure %s not inside %s' % (t0, lim), where=ts.where(calls[0]))
+
+
 def rule_memo(run):
     run.rule('MEMO', 'a result remembered between calls (memo dictionary, caching decorator) is keyed by every parameter it depends on', floor=1)
     from .memo import memo_rule
@@ -340,6 +406,7 @@ def rule_memo(run):
 def check(run):
     run.guarded('MEMO', rule_memo)
     run.guarded('SOLVERARG', rule_solverarg)
+    run.guarded('STARTDOM', rule_startdom)
     run.guarded('POWNAME', rule_powname)
     run.guarded('BOUNDS', rule_bounds)
     run.guarded('GUARD', rule_guard)
